@@ -102,6 +102,7 @@ int handle_cloexec(int handle, bool enable)
   ENS("C11/handle_cloexec.sets_flag", IMPLIES(RV == 0, IS_OPEN(handle) && ((g.fds.cloexec & MASK_OF(handle)) != 0) == enable))
   ENS("C11/handle_cloexec.only_that_flag", g.fds.open == OLD(g.fds.open) && g.fds.lib == OLD(g.fds.lib) && g.fds.nonblock == OLD(g.fds.nonblock) && (g.fds.cloexec & ~MASK_OF(handle)) == (OLD(g.fds.cloexec) & ~MASK_OF(handle)))
   ENS("C04/handle_cloexec.reports_errno", (RV == 0 || RV == -g.e.err) && RV <= 0)
+  ENS("C04/handle_cloexec.fails_only_when_the_os_refused", IMPLIES(RV < 0, g.e.faults > OLD(g.e.faults) || (OLD(g.fds.open) & MASK_OF(handle)) == 0) && IMPLIES(RV == 0, g.e.faults == OLD(g.e.faults)))
   ENS("C04/handle_cloexec.first_failure_reported", IMPLIES(RV < 0 && OLD(g.e.faults) == 0 && g.e.faults > 0, RV == -g.e.first_errno))
   ;
 
@@ -144,6 +145,7 @@ int pipe_nonblocking(int pipe, bool enable)
   ENS("C17/pipe_nonblocking.sets_flag", IMPLIES(RV == 0, IS_OPEN(pipe) && ((g.fds.nonblock & MASK_OF(pipe)) != 0) == enable))
   ENS("C17/pipe_nonblocking.only_that_flag", g.fds.open == OLD(g.fds.open) && g.fds.lib == OLD(g.fds.lib) && g.fds.cloexec == OLD(g.fds.cloexec) && (g.fds.nonblock & ~MASK_OF(pipe)) == (OLD(g.fds.nonblock) & ~MASK_OF(pipe)))
   ENS("C04/pipe_nonblocking.zero_or_negative_errno", RV <= 0 && IMPLIES(RV < 0, RV == -g.e.err))
+  ENS("C04/pipe_nonblocking.fails_only_when_the_os_refused", IMPLIES(RV < 0, g.e.faults > OLD(g.e.faults) || (OLD(g.fds.open) & MASK_OF(pipe)) == 0) && IMPLIES(RV == 0, g.e.faults == OLD(g.e.faults)))
   ENS("C04/pipe_nonblocking.first_failure_reported", IMPLIES(RV < 0 && OLD(g.e.faults) == 0 && g.e.faults > 0, RV == -g.e.first_errno))
   ENS("C17/pipe_nonblocking.does_not_block", g.may_block == OLD(g.may_block))
   ;
@@ -159,7 +161,9 @@ int pipe_read(int pipe, uint8_t *buffer, size_t size)
   ENS("C14/pipe_read.error_ghost_sane", G_ERR_SANE)
   ENS("C02/pipe_read.exactly_one_read_as_asked", g.rl.rd_calls == OLD(g.rl.rd_calls) + 1 && g.rl.rd_fd == pipe && g.rl.rd_buf == (const void *) buffer && g.rl.rd_n == size && g.wl.wr_calls == OLD(g.wl.wr_calls))
   ENS("C02/pipe_read.count_is_kernels", IMPLIES(g.rl.rd_ret > 0, RV == g.rl.rd_ret))
-  ENS("C02/pipe_read.eof_is_epipe", IMPLIES(g.rl.rd_ret == 0, RV == -EPIPE))
+  ENS("C02/pipe_read.eof_is_epipe", IMPLIES(g.rl.rd_eof, RV == -EPIPE))
+  ENS("C02/pipe_read.epipe_only_at_end_of_stream", IMPLIES(RV == -EPIPE, g.rl.rd_eof))
+  ENS("C02/pipe_read.empty_read_is_not_end_of_stream", IMPLIES(g.rl.rd_ret == 0 && !g.rl.rd_eof, RV == 0))
   ENS("C02/pipe_read.error_is_errno", IMPLIES(g.rl.rd_ret < 0, RV == -g.rl.rd_errno && RV < 0))
   ENS("C17/pipe_read.ewouldblock", IMPLIES(g.rl.rd_ret < 0 && g.rl.rd_errno == EAGAIN, RV == REPROC_EWOULDBLOCK))
   ENS("C17/pipe_read.nonblocking_never_sleeps", IMPLIES((OLD(g.fds.nonblock) & MASK_OF(pipe)) != 0, g.may_block == OLD(g.may_block)))
